@@ -75,10 +75,26 @@ Theorem C15_load_error_not_partial : forall m k, In k (map_keys m) -> parse_id k
   cm_load (wrap (DMap m)) = Err.
 Proof. intros m k. exact (parse_keys_err (map_keys m) k). Qed.
 
+(* the key written for an identifier of an RBAC kind carries no ':' (the character is legal in
+   RBAC names and illegal in a ConfigMap key; this is what the "__" transcoding is for) *)
+Theorem C15_rbac_key_no_colon : forall i, is_rbac (o_grp i) (o_knd i) = true ->
+  contains ":" (o_ns i) = false -> contains ":" (string_of_id i) = false.
+Proof. exact rbac_key_no_colon. Qed.
+
 (* ToStringMap / FromStringMap (which validate nothing) on '_'-free ids *)
 Theorem C15_string_map_roundtrip : forall ids, forallb id_wf ids = true ->
   exists l, from_string_map (to_string_map ids) = Ok l /\ (forall i, In i l <-> In i ids) /\ NoDup l.
 Proof. exact string_map_roundtrip. Qed.
+
+(* FromStringMap on ANY map: one identifier per key, each the reading of its key, or an
+   error for the whole map (a key that cannot be read is never dropped silently) *)
+Theorem C15_string_map_not_partial : forall m l, from_string_map m = Ok l ->
+  Forall2 (fun k i => parse_id k = Ok i) (map_keys m) l.
+Proof. intros m l. exact (parse_keys_ok_all (map_keys m) l). Qed.
+
+Theorem C15_string_map_error_not_partial : forall m k, In k (map_keys m) -> parse_id k = Err ->
+  from_string_map m = Err.
+Proof. intros m k. exact (parse_keys_err (map_keys m) k). Qed.
 
 (* ======================= depends-on references ================================ *)
 
@@ -223,6 +239,15 @@ Theorem C15_client_op_accepts_encodable : forall k p d s objs cl,
   oc_err (client_op k p d s objs) = false.
 Proof. exact client_op_accepts_encodable_l. Qed.
 
+(* the second reader of stored inventories (ListClusterInventoryObjs, used by the status
+   command) sees what the next run loads: no entry exactly when there is no inventory object, an
+   error exactly when the object cannot be loaded, otherwise exactly the loaded set *)
+Theorem C15_client_list_loads : forall s,
+  (client_list s = Err <-> client_get s = Err)
+  /\ (forall l, client_list s = Ok (Some l) <-> s <> None /\ client_get s = Ok l)
+  /\ (client_list s = Ok None <-> s = None).
+Proof. exact client_list_loads. Qed.
+
 (* the RBAC kind set and the separators of the models are the ones extracted
    from pkg/object/objmetadata.go and pkg/object/dependson/strings.go on this run *)
 Theorem C15_constants_from_source :
@@ -244,7 +269,10 @@ Print Assumptions C15_storable_iff.
 Print Assumptions C15_store_accepts.
 Print Assumptions C15_parse_output_storable.
 Print Assumptions C15_load_error_not_partial.
+Print Assumptions C15_rbac_key_no_colon.
 Print Assumptions C15_string_map_roundtrip.
+Print Assumptions C15_string_map_not_partial.
+Print Assumptions C15_string_map_error_not_partial.
 Print Assumptions C15_dep_roundtrip.
 Print Assumptions C15_dep_format_iff.
 Print Assumptions C15_dep_trimmed.
@@ -268,6 +296,7 @@ Print Assumptions C15_client_op_written_loads.
 Print Assumptions C15_client_op_error_writes_nothing.
 Print Assumptions C15_client_op_dry_run_writes_nothing.
 Print Assumptions C15_client_op_accepts_encodable.
+Print Assumptions C15_client_list_loads.
 
 (* ---- non-vacuity: concrete instances satisfy the hypotheses ------------------ *)
 Definition ex_role : oid := mkOid "" "system:controller:x" rbac_group "ClusterRole".
